@@ -21,7 +21,7 @@ BUILT = {
  "C18": dict(level="fault_enumeration",
    technique="fault injection with exhaustive enumeration of crash points (SIGKILL at hook points in a child process) and byte-granular write failures (RLIMIT_FSIZE) over rapid-generated pairs of previous/new state; oracle = on-disk file is exactly the previous or the new file and the next session loads one of the two states",
    text="For rapid-generated pairs of a previous state A (or none) and a mutation giving state B (up to 60 bindings, values from a few bytes to tens of KB, growing / shrinking / same size / one huge value), every crash point of the auto-save of B is enumerated: before and after creating the temporary file, after each binding written by SaveGlobals, after the last write and after the rename; the child process kills itself with SIGKILL at the chosen hook point, and the parent reads ./.gr from the disk: it must be byte-identical to A's file (absent if A was absent) or B's file, A before the rename and B after it, and a fresh process must auto-load it without error into globals equal to A's or B's. Write failures are injected after 0, 1, size-1 bytes and around every line boundary; the previous file must survive.",
-   note="Uses the verif build tag (verifhook.Point). Process death, not power loss (no fsync semantics). Left-over temporary files are allowed and counted.",
+   note="Uses the verif build tag (verifhook.Point). Process death, not power loss (no fsync semantics). Left-over temporary files are allowed and counted. Also: a later complete save after an interrupted one equals the save in a clean directory; the session's own final globals equal what the next session restores; a system-call trace (strace, skipped where tracing is not possible) shows that ./.gr is only ever replaced by one rename, also when that rename is made to fail.",
    ref="DESIGN.md section 3, C18"),
  "C17": dict(level="exploration",
    technique="exhaustive enumeration of short file names over a hostile alphabet + rapid composed names, each evaluated in a child process per IO configuration against a reference name predicate and a scan of the real file system effects",
@@ -36,7 +36,7 @@ BUILT = {
  "C10": dict(level="exploration",
    technique="metamorphic / twin-session testing: a history of succeeding inputs with and without interleaved side-effect-free failing inputs; oracle = every succeeding input behaves identically in both sessions",
    text="Succeeding inputs (typed-grammar statements plus fixed inputs that print from inside a function, run counted loops and recurse) are fed to one persistent session, and to a twin in which 0..12 failing inputs of 25 kinds (language error at top level / in nested calls / in every loop form, type error deep in an expression, depth overflow, memory-guard refusal, deadline on a tight loop, parse error, incomplete input, wrong arity...) are inserted at every position; the session writer is set once, so output that goes astray shows up as a missing delta. Per succeeding input the output, echo, errors and panicked flag must match, and the final globals too. Every failure kind is also run 12 times in a row in a deterministic family.",
-   note="Failing inputs are built to be side-effect free (IIFEs, own names, no prints). A failing input that does not fail as constructed (deadline not firing) makes the case inconclusive. Successes run with a 20 s safety deadline.",
+   note="Failing inputs are built to be side-effect free (IIFEs, own names, no prints). A failing input that does not fail as constructed (deadline not firing) makes the case inconclusive. Successes run with a 20 s safety deadline. A calibrated deepest-recursion probe and the same memoizable calls after a deadline make left-over depth / cache state visible; interpreter state only exec() would show (the piped value) is read directly.",
    ref="DESIGN.md section 3, C10"),
  "C04": dict(level="exploration",
    technique="differential testing (function-result cache on vs off through a build-tag hook) of stateful REPL histories and typed-grammar programs; oracle = identical per-input output, echo, error/no-error and final globals",
@@ -46,7 +46,7 @@ BUILT = {
  "C06": dict(level="exploration",
    technique="stateful model-based testing (rapid): operation histories over 6 variables against a value-semantics model with a check of every live binding after every statement",
    text="Histories of 10-40 statements (bind literals of 0..20 elements, copy, store inside a container and read back, index / key / field assignment incl. negative index, append, concat, merge, two appends from one base, del, slice, rest, pass to a mutating function, mutate while iterating, ++ on an element copy) run on one session; the model deep-copies on every bind and after EVERY statement every live variable must evaluate to the model's value, so any operation that changes a binding it was not applied to is caught at the step where it happens. Sizes are drawn on both sides of the 8-element / 4-pair thresholds. In-place mutation of shared large containers and appends into shared spare capacity are genuine defects recorded as known findings; the machine tracks storage provenance only to exclude exactly those steps.",
-   note="Trusted: the value model (harness/val) and the provenance tracking that decides which steps belong to the two known-finding classes (conservative: it may exclude a harmless step, never include a harmful one on the unchanged tree).",
+   note="Trusted: the value model (harness/val) and the provenance tracking that decides which steps belong to the two known-finding classes (conservative: it may exclude a harmless step, never include a harmful one on the unchanged tree). Statements also run inside immediately called functions, so every variable is reached through a reference.",
    ref="DESIGN.md section 3, C06"),
  "C05": dict(level="exploration",
    technique="differential testing (registers on vs State.NoReg) of typed-grammar programs and multi-input sessions; oracle = identical per-input output, echo, error/no-error, panicked flag and final globals",
@@ -81,7 +81,7 @@ BUILT = {
  "C09": dict(level="exploration",
    technique="rapid-generated programs x configurations, one child process per case under GOMEMLIMIT/RLIMIT_AS; oracle = child exits by itself, wall time <= deadline + 3 s, peak RSS <= 3 x limit + 128 MiB, unbounded recursion ends as 'max depth'",
    text="Each generated case is a program from the families the property names (non-terminating loops with and without allocation, direct / mutual / closure / self recursion, growth operators with huge and overflowing operands and doubling loops, source text nested 10^2 .. 2*10^6 deep in 12 syntactic ways, sleep, mixtures) together with a depth limit (10 .. default), a deadline (1 ms .. 1 s), a memory limit (64 .. 256 MiB) and the program format. It runs in its own child process through repl.EvalStringWithOption, because the failures in question (Go stack overflow, out of memory) kill the process and cannot be recovered in-process; exit status, signal, wall time and peak RSS are read from the child and a report says which guard fired.",
-   note="Timing and memory are measured: tolerances are wide and a case over the time bound is re-run alone twice before it counts. Cancellation instants are sampled, not enumerated.",
+   note="Timing and memory are measured: tolerances are wide and a case over the time bound is re-run alone twice before it counts. Cancellation instants are sampled, not enumerated. Also deterministic parts: every nesting / chaining form and every growth program once per run (nesting family under a 32 MiB Go stack, see DESIGN.md), values referencing one container from many places, and the command line's limits in every input mode. The time bound is taken around the evaluation call inside the child.",
    ref="DESIGN.md section 3, C09"),
  "C11": dict(level="exploration",
    technique="model-based testing: exhaustive breadth-first exploration of reachable map states (contents x representation) for a 7-key universe + rapid stateful operation sequences through grol source, oracle = sorted association-list reference map",
